@@ -388,6 +388,10 @@ def rule_len(env, shared):
                 # None: only when the length was not captured (and, like every non-zero answer, under a false flag)
                 if not any(f[0] == "is_some" and f[2] is False and env.R.self_field_path(unref(f[1])) for f in fs):
                     shape_bad = ("unknown", "None is answered although the captured length may be known")
+                if not flag_f:
+                    # answered before (or without) looking at the end flag: after the end, a source of unknown length keeps
+                    # answering None — has_more says Maybe for ever although nothing can be delivered any more
+                    gated = False
         k2 = key + "|flag->Some(0)"
         okk2 = done_ok and done_bad is None
         out.append(Ob("LEN", k2, "ok" if okk2 else "viol", loc,
@@ -696,9 +700,13 @@ def rule_done(env, shared):
             if tgt is None:
                 continue
             none_blocks = []
+            # (the result of this very call: a loop may also run a std iterator over its buffer, `for slot in buf.iter_mut()`)
+            dest = b.term(e.bb).get("dest")
+            res_t = unref(ev.local(ctx, dest["l"])) if dest is not None and not dest["p"] else None
             for bb in b.reachable(tgt):
                 for f in block_facts(ev, ctx, bb):
-                    if f[0] == "is_some" and f[2] is False and "Iterator::next" in fmt(f[1]):
+                    if f[0] == "is_some" and f[2] is False and "Iterator::next" in fmt(f[1]) \
+                            and (res_t is None or unref(f[1]) == res_t or res_t[0] not in ("ret", "call")):
                         none_blocks.append(bb)
             k = "DONE-SET|%s" % env.fname(b)
             if not none_blocks:
